@@ -3,6 +3,7 @@ Property C06 — loss recovery resolves every frame exactly once; accounts balan
 Theorems over the model `Uquic.Model.Sent` (internal/ackhandler sent-packet handler).
 -/
 import Uquic.Proofs.SentLedger
+import Uquic.Proofs.SentFlight
 
 namespace Uquic.Props.C06
 open Uquic.Model.Sent Uquic.Proofs.Sent List
@@ -75,5 +76,57 @@ theorem resolved_exactly_once (pn : PN) (val client : Bool) (nts : PN) (ops : Li
   simp only [List.count_append] at h
   rw [List.count_eq_zero_of_not_mem hp, List.count_eq_zero_of_not_mem hd] at h
   omega
+
+/-! ### in_flight_balanced -/
+
+/-- a history obeys the caller contract (`Valid`) at every operation that is executed -/
+def ValidRun (s : State) : List (Op × StepEnv) → Prop
+  | [] => True
+  | (op, e) :: rest => Valid s op ∧ ((s.step op e).2.res = .ok → ValidRun (s.step op e).1 rest)
+
+theorem new_FInv (pn : PN) (val client : Bool) (nts : PN) : FInv (State.new pn val client nts) := by
+  refine ⟨⟨(Space.new_flight _ _ _).1, (Space.new_flight _ _ _).1, (Space.new_flight _ _ _).1⟩, ?_⟩
+  simp [State.new, total, spaceFlight, (Space.new_flight _ _ _).2]
+
+theorem flight_run (ops : List (Op × StepEnv)) : ∀ (s : State), FInv s → ValidRun s ops →
+    ((s.run ops).res = .ok → FInv (s.run ops).s) ∧ Benign (s.run ops).res := by
+  induction ops with
+  | nil => intro s fi _; exact ⟨fun _ => fi, Benign_ok⟩
+  | cons x xs ih =>
+    intro s fi hv
+    obtain ⟨op, e⟩ := x
+    obtain ⟨v1, v2⟩ := hv
+    obtain ⟨s1, s2⟩ := @step_flight s op e fi v1
+    simp only [State.run]
+    cases hr : (s.step op e).2.res with
+    | ok => simp only []; exact ih _ (s1 hr) (v2 hr)
+    | err c => simp only []; exact ⟨fun h => by simp at h, Benign_err c⟩
+    | panic c => simp only []; rw [hr] at s2; exact ⟨fun h => by simp at h, s2⟩
+
+/-- **in_flight_balanced**: after every history that obeys the caller contract and completed normally,
+    `bytesInFlight` is exactly the total size of the tracked packets counted in flight (all of them
+    ack-eliciting, none a path probe), it is not negative, and in every packet number space
+    `numOutstanding` is exactly the number of outstanding packets. -/
+theorem in_flight_balanced (pn : PN) (val client : Bool) (nts : PN) (ops : List (Op × StepEnv))
+    (hv : ValidRun (State.new pn val client nts) ops) (hok : ((State.new pn val client nts).run ops).res = .ok) :
+    let s := ((State.new pn val client nts).run ops).s
+    s.bytesInFlight = spaceFlight s.initial + spaceFlight s.handshake + wsum flightOf s.app.hist.packets ∧
+    0 ≤ s.bytesInFlight ∧
+    (∀ sp, s.initial = some sp → sp.hist.numOutstanding = wsum outOf sp.hist.packets) ∧
+    (∀ sp, s.handshake = some sp → sp.hist.numOutstanding = wsum outOf sp.hist.packets) ∧
+    s.app.hist.numOutstanding = wsum outOf s.app.hist.packets := by
+  have fi := (flight_run ops _ (new_FInv pn val client nts) hv).1 hok
+  refine ⟨fi.2, by rw [fi.2]; exact total_nonneg fi.1, ?_, ?_, fi.1.app.count⟩
+  · intro sp hsp; have := fi.1.ini; rw [hsp] at this; exact this.count
+  · intro sp hsp; have := fi.1.hs; rw [hsp] at this; exact this.count
+
+/-- the `panic("negative bytes_in_flight")`, `panic("negative number of outstanding packets")` and
+    `panic("cleanup failed")` branches are unreachable in any history that obeys the caller contract -/
+theorem accounting_panics_unreachable (pn : PN) (val client : Bool) (nts : PN) (ops : List (Op × StepEnv))
+    (hv : ValidRun (State.new pn val client nts) ops) :
+    ((State.new pn val client nts).run ops).res ≠ .panic .negativeBytesInFlight ∧
+    ((State.new pn val client nts).run ops).res ≠ .panic .negativeOutstanding ∧
+    ((State.new pn val client nts).run ops).res ≠ .panic .cleanupFailed :=
+  (flight_run ops _ (new_FInv pn val client nts) hv).2
 
 end Uquic.Props.C06
